@@ -262,16 +262,36 @@ func CheckC19(h *History) []Violation {
 			v.add("C19", "followup-no-grant", "", o.Op.ID, "un-faulted update op %d (requested %d) got no grant although every peer answered its requests: %s", o.Op.ID, u.Req, o.RespBody)
 			return v.list
 		}
-		if ui.Granted != u.Req {
-			cls := "unattributable"
-			for _, p := range h.Ops {
-				if p != o && len(p.Op.Units) > 0 && p.Op.Units[0].Req == ui.Granted {
-					cls = "cross-talk"
+		// the grant must be consistent with the rating answer to this op's OWN request
+		// (matched on the wire by hop-by-hop id), never with an answer to another request
+		ownAllowed, haveOwn := ownRatingAnswer(h, o, u.RG)
+		if haveOwn {
+			want := int64(u.Req)
+			if int64(ownAllowed) < want {
+				want = int64(ownAllowed)
+			}
+			switch {
+			case int64(ui.Granted) > int64(ownAllowed):
+				v.add("C19", "grant-exceeds-own-answer", "", o.Op.ID,
+					"un-faulted update op %d was granted %d units but the rating answer to its own request allows %d", o.Op.ID, ui.Granted, ownAllowed)
+				return v.list
+			case int64(ui.Granted) != want:
+				// which other answer explains the value?
+				for _, m := range h.Msgs {
+					if m.Cmd == 111 && !m.Request && m.ToClient && m.F.HasAllowed && (m.Op != o.Op.ID || m.F.Allowed != ownAllowed) {
+						other := int64(u.Req)
+						if int64(m.F.Allowed) < other {
+							other = int64(m.F.Allowed)
+						}
+						if other == int64(ui.Granted) {
+							v.add("C19", "grant-cross-talk", "", o.Op.ID,
+								"un-faulted update op %d requested %d units, its own rating answer allows %d, but it was granted %d — what the answer sent for op %d (allowed units %d) yields",
+								o.Op.ID, u.Req, ownAllowed, ui.Granted, m.Op, m.F.Allowed)
+							return v.list
+						}
+					}
 				}
 			}
-			v.add("C19", "grant-"+cls, "", o.Op.ID,
-				"un-faulted update op %d requested %d units with ample balance and was granted %d (%s)", o.Op.ID, u.Req, ui.Granted, cls)
-			return v.list
 		}
 		pre, ok1 := stateOf(o.Pre, o.Op.Supi, u.RG)
 		post, ok2 := stateOf(o.Post, o.Op.Supi, u.RG)
@@ -288,6 +308,97 @@ func CheckC19(h *History) []Violation {
 				v.add("C19", "reservation-"+cls, "", o.Op.ID,
 					"un-faulted update op %d: reservation moved by %d (+ cost x used) but the account server granted %d to this op's own request (%s)",
 					o.Op.ID, delta, ownGrant[o.Op.ID], cls)
+				return v.list
+			}
+		}
+	}
+	return v.list
+}
+
+// ownRatingAnswer finds the SUA that answered this op's reserve-mode rating request (the
+// one carrying the monetary quota) on the wire.
+func ownRatingAnswer(h *History, o *OpResult, rg int32) (uint64, bool) {
+	var hop uint32
+	found := false
+	for _, m := range h.Msgs {
+		if m.Task == o.Task && m.Op == o.Op.ID && m.Cmd == 111 && m.Request && m.F.HasSR && m.F.ServiceID == int64(rg) && m.F.ReqSubType == 1 && m.F.MonetaryQ > 0 {
+			hop, found = m.HopByHop, true
+		}
+	}
+	if !found {
+		return 0, false
+	}
+	for _, m := range h.Msgs {
+		if m.Op == o.Op.ID && m.Cmd == 111 && !m.Request && m.ToClient && m.HopByHop == hop && m.Delivered && m.F.HasAllowed {
+			return m.F.Allowed, true
+		}
+	}
+	return 0, false
+}
+
+// CheckReleaseRace: requests racing with a release of the same session.  Whatever the
+// interleaving, once the release has been answered the released session's record must not
+// change any more (a request that is answered 200 must have taken effect before the
+// release; one that takes effect afterwards names a stale reference and must be rejected).
+func CheckReleaseRace(h *History, prop string) []Violation {
+	var v vio
+	if h.Aborted || h.FinalMem == nil {
+		return nil
+	}
+	all := append(append([]*OpResult(nil), h.Ops...), h.Epilogue...)
+	for _, r := range all {
+		if r.Op.Kind != "release" || !r.Done || !is2xx(r.Status) || r.Op.RefMode != "" {
+			continue
+		}
+		// the file image the release itself wrote
+		var img []byte
+		for i := r.PreWrites; i < len(h.Journal); i++ {
+			w := h.Journal[i]
+			if w.Task == r.Task && w.At >= r.StartNs && w.At <= r.EndNs {
+				img = w.Data
+			}
+		}
+		if img == nil {
+			continue
+		}
+		inImg := map[int64]bool{}
+		if f, errs := readCdrFile(img); f != nil && len(errs) == 0 {
+			for _, p := range f.Payloads {
+				if rec, err := decodeCHFRecord(p); err == nil && rec.SessionID == r.Ref {
+					for _, c := range rec.Containers {
+						inImg[c.Seq] = true
+					}
+				}
+			}
+		} else {
+			continue
+		}
+		for _, rec := range h.FinalMem[r.Op.Supi] {
+			if !rec.HasSession || rec.Session != r.Ref {
+				continue
+			}
+			for _, c := range rec.Containers {
+				if !inImg[c.Seq] {
+					who := "?"
+					for _, o := range all {
+						for _, rc := range o.Reported {
+							if int64(rc.Seq) == c.Seq {
+								who = fmt.Sprintf("%s op %d (answered %d, ran %d..%d ns; the release ran %d..%d ns)", o.Op.Kind, o.Op.ID, o.Status, o.StartNs, o.EndNs, r.StartNs, r.EndNs)
+							}
+						}
+					}
+					v.add(prop, "released-record-changed", "", r.Op.ID,
+						"session %s (%s) was released by op %d (204), but afterwards its closed record gained usage container seq %d reported by %s",
+						r.Op.Sess, r.Ref, r.Op.ID, c.Seq, who)
+					return v.list
+				}
+			}
+		}
+		// real-time order: a request issued after the release was answered must be rejected
+		for _, o := range all {
+			if (o.Op.Kind == "update" || o.Op.Kind == "release") && o != r && o.Op.Sess == r.Op.Sess && o.Op.RefMode == "" && o.Done && o.StartNs > r.EndNs && is2xx(o.Status) {
+				v.add(prop, "stale-reference-accepted", "op="+o.Op.Kind, o.Op.ID,
+					"%s op %d on session %s started after the release of that session had been answered and was still answered %d", o.Op.Kind, o.Op.ID, o.Op.Sess, o.Status)
 				return v.list
 			}
 		}
@@ -392,6 +503,7 @@ func CheckC09(h *History) []Violation {
 			}
 		}
 	}
+	v.list = append(v.list, CheckReleaseRace(h, "C09")...)
 	// (5) acknowledged sessions stay usable
 	for _, o := range h.Epilogue {
 		if o.Skipped != "" {
